@@ -22,7 +22,9 @@ META = {
         "(function, spelling, shapes, argument pattern); non-trivial when the array has >= 2 "
         "elements and contains a tie or a negative"
     ),
-    "assumptions": ["float results compared with rtol 1e-12 (same numpy kernels on both sides); "
+    "assumptions": ["narrow coefficient dtypes (8/16/32 bit) are only paired with array operands, "
+                    "not with bare Python scalars (numpy's weak-scalar promotion is not modelled)",
+                    "float results compared with rtol 1e-12 (same numpy kernels on both sides); "
                     "linear algebra on floats with an absolute tolerance of 1e-9 x the magnitude a "
                     "product of entries can reach (numpy's LU / BLAS round differently)"],
     "min_evaluations": {"quick": 15000, "thorough": 300000},
@@ -136,6 +138,22 @@ def run_case(case, ctx):
         ctx.violation(facts, f"{op.name}/{spelling} kw={kw} on {[numpy.asarray(x).tolist() for x in numeric]!r:.300}: {text}", case)
 
 
+def _const(data, dtype, kind):
+    return {"k": "poly", "names": ["q0"], "exps": [[0]], "coefs": [data], "kind": kind,
+            "shape": list(numpy.shape(data)), "via": "attrs", "const": True, "dtype": dtype}
+
+
+# fixed cases run in every tier and seed (each recorded finding is exercised by one of them)
+DIRECTED = [
+    {"op": "det", "operands": [_const([[0, 1], [2, 1]], "uint8", "int")], "kw": {}},
+    {"op": "det", "operands": [_const([[3, 3, 0], [0, 3, 3], [3, 0, 3]], "int8", "int")], "kw": {}},
+    {"op": "floor_divide", "operands": [_const([7, 9, 100], "int32", "int"),
+                                        _const([2, 3, 7], "int32", "int")], "kw": {}},
+    {"op": "floor_divide", "operands": [_const([60000.0, 33333.0], "float16", "float"),
+                                        _const([7, 3], "int64", "int")], "kw": {}},
+]
+
+
 def division_guard(ctx):
     """Numeric division functions must refuse a non-constant polynomial divisor."""
     import numpoly
@@ -194,11 +212,21 @@ def run(spec, ctx):
             division_guard(ctx)
             unmodelled(ctx)
             ctx.end()
+    if spec["part"] == 0:
+        for case in DIRECTED:
+            for spelling in ("numpoly", "numpy"):
+                ctx.run_case(dict(case, spelling=spelling), lambda c: run_case(c, ctx))
     g = C.ConstGen(spec["seed"] * 1000003 + spec["part"] * 7919 + 11)
     names = list(C.OPS)
     for i in range(spec["per_op"]):
         for name in names:
             case = catrun.gen_case(g, name)
+            if any(s["k"] == "py" for s in case["operands"]):
+                # a Python scalar has no dtype: numpy's weak-scalar promotion (version dependent)
+                # is not part of "the numpy function on the underlying numeric arrays"
+                for s in case["operands"]:
+                    if s["k"] == "poly":
+                        s.pop("dtype", None)
             if i == 0 and spec["part"] == 0 and name in ("argmax", "amax", "concatenate"):
                 ctx.sample(case)
             ctx.run_case(case, lambda c: run_case(c, ctx))
